@@ -216,6 +216,13 @@ func c09Service(r *Run, sim *verifsim.Sim, kind string, pool bool, ncallers, per
 	}
 	client := fx.NewClient()
 	client.Timeout = time.Hour
+	if kind == "udp" && r.PlanBool(2) {
+		// datagrams overtake one another in both directions and responses arrive twice; requests are not
+		// duplicated (a duplicated request would legitimately execute twice) and nothing is lost
+		fx.UDP.Reorder = true
+		fx.UDP.DupDen, fx.UDP.DupDir = 2+r.Plan(3), "s2c"
+		r.Param("udp", "reorder+dup-responses")
+	}
 	var calls []*c09call
 	id := 0
 	for i := 0; i < ncallers; i++ {
